@@ -8,7 +8,6 @@ import (
 	"net/http"
 	"time"
 
-	"github.com/andydunstall/yamux"
 	"github.com/gorilla/websocket"
 
 	"github.com/andydunstall/piko/pkg/auth"
@@ -16,6 +15,7 @@ import (
 	"github.com/andydunstall/piko/pkg/middleware"
 	pikowebsocket "github.com/andydunstall/piko/pkg/websocket"
 	"github.com/andydunstall/piko/server/cluster"
+	"github.com/andydunstall/piko/server/config"
 	v "github.com/andydunstall/piko/zzverif"
 	"github.com/andydunstall/piko/zzverif/ginstub"
 )
@@ -41,17 +41,10 @@ func VerifStubUpgrade(u *websocket.Upgrader, w http.ResponseWriter, r *http.Requ
 func vNewUpstreamServer() (*Server, *LoadBalancedManager, *cluster.State, func()) {
 	cs := cluster.NewState(&cluster.Node{ID: "local", ProxyAddr: "p:1", AdminAddr: "a:1"}, log.NewNopLogger())
 	m := NewLoadBalancedManager(cs, nil)
-	ctx, cancel := context.WithCancel(context.Background())
-	s := &Server{
-		upstreams:         m,
-		sessions:          map[*yamux.Session]struct{}{},
-		websocketUpgrader: &websocket.Upgrader{},
-		ctx:               ctx,
-		cancel:            cancel,
-		cluster:           cs,
-		logger:            log.NewNopLogger(),
-	}
-	return s, m, cs, cancel
+	// built by the real constructor (gin is the recording stub): whatever it
+	// wires - contexts, session table, upgrader, routes - is what is checked
+	s := NewServer(m, nil, nil, cs, config.UpstreamConfig{}, log.NewNopLogger())
+	return s, m, cs, s.cancel
 }
 
 // Harness_C16_route: the upstream handler, for every way its connection can
@@ -235,7 +228,6 @@ func Harness_C16_registered_while_connected() {
 		// the connection stays open: only the server can end the handler
 		v.Assert("C16/context-live-before-shutdown", waiting.Err() == nil && s.ctx.Err() == nil)
 		v.Assert("C16/registered-while-connected", VerifRegistered(m, ep) == 1)
-		s.httpServer = &http.Server{}
 		VerifHTTPShutdownFail = v.Choose("http-shutdown-fails", 2) == 1
 		err := s.Shutdown(context.Background())
 		shutdowns++
